@@ -443,6 +443,21 @@ def stateModesG (s : PS D) (modes : List Nat) : R (List (Nat × D)) :=
     | .error e => .error e
     | .ok data => .ok (labels.zip data)
 
+/-- insertion into an ascending list (`sorted(modes)`) -/
+def insertAsc (m : Nat) : List Nat → List Nat
+  | [] => [m]
+  | x :: xs => if m ≤ x then m :: x :: xs else x :: insertAsc m xs
+
+def sortAsc (l : List Nat) : List Nat := l.foldr insertAsc []
+
+/-- bosonic `state(modes)`: `modes` are mode indices; data and labels in ascending index order; no activity
+test (a deleted index returns its vacuum row), `IndexError` beyond the stored modes -/
+def stateModesB (s : PS D) (modes : List Nat) : R (List (Nat × D)) :=
+  let ms := sortAsc modes
+  match getAll s.rows ms with
+  | .error e => .error e
+  | .ok data => .ok (ms.zip data)
+
 def applyCmd (s : PS D) (c : Cmd) : R (PS D) :=
   match c.op with
   | .newModes _ => .ok (s.addMode c.reg.length)
@@ -518,7 +533,10 @@ def Sys.init {D B : Type} (o : BackendOps D B) (n : Nat) : R (Sys B) :=
 /-- `BaseEngine._run` for one program -/
 def engineRun {D B : Type} (o : BackendOps D B) (s : Sys B) : R (Sys B) :=
   let start : R B := match s.prev with
-    | none => .ok (o.begin s.prog.initNum)
+    | none =>
+      -- no previous segment: the back end gets `init_num_subsystems` contiguous modes, so a register that
+      -- starts with deleted subsystems is refused ("Register mismatch")
+      if s.prog.initRegRefs.all (·.active) then .ok (o.begin s.prog.initNum) else .error .runtime
     | some pr => if s.prog.canFollow pr then .ok s.be else .error .runtime
   match start with
   | .error e => .error e
